@@ -1,2 +1,41 @@
-From EQL Require Import Base.
-Theorem C01_placeholder : True. Proof. exact I. Qed.
+(* Property C01 — a single-variable query is an exact, ordered, duplicate-free domain filter.
+   Only statements, `exact`, and Print Assumptions. *)
+From EQL Require Import Base Values Syntax Spec Generated Elab Elab_Facts EvalPure EvalPure_Facts OneVar_Facts Elab_Frag.
+
+(* For EVERY heap, EVERY domain, EVERY condition the user can write over the one variable x (any nesting of and_/or_/not_
+   over the six comparisons written either way round, in_/contains, attribute chains, indexes, method calls and expressions
+   in condition position; nested sub-queries as conditions): the rows the evaluator delivers are, as a LIST, the domain
+   filtered by ordinary truth of the condition — membership, order and multiplicity at once.  No bound on tree depth or
+   domain size.  (NoDup is the property's own premise; the P-model does not need it, the code's lazy domain does.) *)
+Theorem C01_filter : forall h dom x sc ic,
+  NoDup (dom x) -> s1 x sc = true -> elab sc = Some ic ->
+  run_query h dom [TVar x] (Some ic) = map (fun v => [v]) (filter (fun v => sat h dom sc (ev x v)) (dom x)).
+Proof.
+  intros h dom x sc ic _ S E. rewrite (one_var_filter h dom x ic (elab_c1 x sc ic E S)).
+  f_equal. apply filter_ext. intros v. exact (elab_sat h dom sc ic E (ev x v)).
+Qed.
+Print Assumptions C01_filter.
+
+(* everything writable in that vocabulary elaborates (the hypothesis `elab sc = Some ic` is never the obstacle) *)
+Theorem C01_elab_total : forall sc, writable sc = true -> exists ic, elab sc = Some ic.
+Proof. exact elab_writable. Qed.
+Print Assumptions C01_elab_total.
+
+(* no condition: the whole domain in order *)
+Theorem C01_no_condition : forall h dom x, run_query h dom [TVar x] None = map (fun v => [v]) (dom x).
+Proof. exact one_var_all. Qed.
+Print Assumptions C01_no_condition.
+
+(* non-vacuity: a concrete heap, a five-object domain and a condition with nested negation, a literal on the left,
+   membership and an expression in condition position meet the hypotheses; two of five objects qualify, in domain order *)
+Example C01_nonvacuous :
+  let h := [[VInt 1; VA (ABool true); VTup [AInt 1]]; [VInt 2; VA (ABool false); VTup []];
+            [VInt 3; VA (ABool false); VTup [AInt 3; AInt 0]]; [VInt 0; VA (ABool true); VTup [AInt 2]];
+            [VInt 3; VA (ABool true); VTup []]] in
+  let dom := fun k : key => if Nat.eqb k 1 then [VObj 4; VObj 0; VObj 2; VObj 1; VObj 3] else [] in
+  let a := TMap (MField 0) (TVar 1) in
+  let sc := SNot (SOr (SNot (SOr (SCmp Lt (TLit (VInt 2)) a) (SIn a (TMap (MField 2) (TVar 1)))))
+                      (SAnd (STruth (TMap (MField 1) (TVar 1))) (SNot (SNot (SCmp Eq a (TLit (VInt 3))))))) in
+  s1 1 sc = true /\ writable sc = true /\
+  exists ic, elab sc = Some ic /\ run_query h dom [TVar 1] (Some ic) = [[VObj 0]; [VObj 2]].
+Proof. cbv zeta. split; [reflexivity|]. split; [reflexivity|]. eexists. split; [vm_compute; reflexivity | vm_compute; reflexivity]. Qed.
